@@ -8,6 +8,7 @@ package main
 import (
 	"fmt"
 	"reflect"
+	"strings"
 	"sync"
 )
 
@@ -163,9 +164,29 @@ func vidOf(v reflect.Value) int {
 	return int(v.Field(0).Int())
 }
 
-func e2s(s string) string {
+// tildeOnly renders "" as "~" and leaves everything else alone (composite protocol fields).
+func tildeOnly(s string) string {
 	if s == "" {
 		return "~"
 	}
 	return s
+}
+
+// e2s renders a name / subtype for the line protocol: "" is "~", and every byte outside
+// [A-Za-z0-9_=.+/-] is percent-encoded (the protocol separates with spaces, commas, colons, bars).
+func e2s(s string) string {
+	if s == "" {
+		return "~"
+	}
+	var b strings.Builder
+	for i := 0; i < len(s); i++ {
+		c := s[i]
+		switch {
+		case c >= 'a' && c <= 'z', c >= 'A' && c <= 'Z', c >= '0' && c <= '9', c == '_', c == '=', c == '.', c == '+', c == '/', c == '-':
+			b.WriteByte(c)
+		default:
+			fmt.Fprintf(&b, "%%%02X", c)
+		}
+	}
+	return b.String()
 }
